@@ -552,10 +552,6 @@ class io_epoll_context::read_sender {
       auto result = readv(fd_, buffer_, 1);
 
       if (result == -EAGAIN || result == -EWOULDBLOCK || result == -EPERM) {
-        if constexpr (is_stop_ever_possible) {
-          stopCallback_.construct(
-              get_stop_token(receiver_), cancel_callback{*this});
-        }
         UNIFEX_ASSERT(
             static_cast<completion_base*>(this)->enqueued_.load() == 0);
         static_cast<completion_base*>(this)->execute_ =
@@ -564,6 +560,13 @@ class io_epoll_context::read_sender {
         event.data.ptr = static_cast<completion_base*>(this);
         event.events = EPOLLIN | EPOLLRDHUP | EPOLLHUP;
         (void)epoll_ctl(context_.epollFd_.get(), EPOLL_CTL_ADD, fd_, &event);
+        // Register the stop callback only once the descriptor is in the epoll
+        // set: if stop has already been requested the callback runs inline
+        // and removes the descriptor again.
+        if constexpr (is_stop_ever_possible) {
+          stopCallback_.construct(
+              get_stop_token(receiver_), cancel_callback{*this});
+        }
         return;
       }
 
@@ -780,11 +783,6 @@ class io_epoll_context::write_sender {
       auto result = writev(fd_, buffer_, 1);
 
       if (result == -EAGAIN || result == -EWOULDBLOCK || result == -EPERM) {
-        if constexpr (is_stop_ever_possible) {
-          stopCallback_.construct(
-              get_stop_token(receiver_), cancel_callback{*this});
-        }
-
         UNIFEX_ASSERT(
             static_cast<completion_base*>(this)->enqueued_.load() == 0);
         static_cast<completion_base*>(this)->execute_ =
@@ -793,6 +791,13 @@ class io_epoll_context::write_sender {
         event.data.ptr = static_cast<completion_base*>(this);
         event.events = EPOLLOUT | EPOLLRDHUP | EPOLLHUP;
         (void)epoll_ctl(context_.epollFd_.get(), EPOLL_CTL_ADD, fd_, &event);
+        // Register the stop callback only once the descriptor is in the epoll
+        // set: if stop has already been requested the callback runs inline
+        // and removes the descriptor again.
+        if constexpr (is_stop_ever_possible) {
+          stopCallback_.construct(
+              get_stop_token(receiver_), cancel_callback{*this});
+        }
         return;
       }
 
